@@ -66,6 +66,45 @@ func commandMatrix(K string, full bool) []Op {
 	return out
 }
 
+// aliasMatrix: every command that copies a value into another key, followed by a change of the source
+// and by a change of the destination: the two keys must not share storage afterwards (the full state
+// observation after the macro operation sees a change leaking through)
+func aliasMatrix() []Op {
+	type cp struct {
+		copy     []string
+		src, dst string
+		kind     byte
+	}
+	cps := []cp{
+		{[]string{"COPY", "ks", "kd"}, "ks", "kd", 's'}, {[]string{"COPY", "kl", "kd"}, "kl", "kd", 'l'}, {[]string{"COPY", "kh", "kd"}, "kh", "kd", 'h'}, {[]string{"COPY", "kz", "kd"}, "kz", "kd", 'z'},
+		{[]string{"COPY", "kz", "kd", "REPLACE"}, "kz", "kd", 'z'}, {[]string{"SUNIONSTORE", "kd", "kz"}, "kz", "kd", 'z'}, {[]string{"SDIFFSTORE", "kd", "kz"}, "kz", "kd", 'z'}, {[]string{"SINTERSTORE", "kd", "kz"}, "kz", "kd", 'z'},
+		{[]string{"SUNIONSTORE", "kd", "kz", "kn"}, "kz", "kd", 'z'}, {[]string{"SDIFFSTORE", "kd", "kz", "kn"}, "kz", "kd", 'z'}, {[]string{"SINTERSTORE", "kd", "kz", "kz"}, "kz", "kd", 'z'}, {[]string{"SUNIONSTORE", "kd", "kn", "kz"}, "kz", "kd", 'z'},
+		{[]string{"SORT", "kl", "ALPHA", "STORE", "kd"}, "kl", "kd", 'l'}, {[]string{"BITOP", "AND", "kd", "ks"}, "ks", "kd", 's'}, {[]string{"BITOP", "OR", "kd", "ks", "kn"}, "ks", "kd", 's'}, {[]string{"RENAME", "kz", "kd"}, "kd", "kd", 'z'},
+		{[]string{"SETRANGE", "kd", "0", ""}, "ks", "kd", 's'}, {[]string{"LMOVE", "kl", "kd", "LEFT", "LEFT"}, "kl", "kd", 'l'},
+	}
+	mut := map[byte][][]string{
+		's': {{"APPEND", "%", "x"}, {"SETRANGE", "%", "0", "Z"}, {"SETBIT", "%", "1", "1"}, {"INCR", "%"}},
+		'l': {{"RPUSH", "%", "q"}, {"LSET", "%", "0", "q"}, {"LPOP", "%"}},
+		'h': {{"HSET", "%", "f", "q"}, {"HSET", "%", "q", "q"}, {"HDEL", "%", "f"}},
+		'z': {{"SADD", "%", "q"}, {"SREM", "%", "m"}, {"SREM", "%", "m", "n2"}},
+	}
+	var out []Op
+	for _, p := range cps {
+		for _, victim := range []string{p.src, p.dst} {
+			for _, m := range mut[p.kind] {
+				a := append([]string{}, m...)
+				for i := range a {
+					if a[i] == "%" {
+						a[i] = victim
+					}
+				}
+				out = append(out, Op{Args: p.copy, Then: []Op{{Args: a}}})
+			}
+		}
+	}
+	return out
+}
+
 func matrixAll(targets []string) []Op {
 	var S []Op
 	seen := map[string]bool{}
@@ -84,7 +123,7 @@ func matrixAll(targets []string) []Op {
 func specC06(tier string) *SeqSpec {
 	s := &SeqSpec{ID: "C06", Sessions: 1, Keys: []string{"ks", "kl", "kh", "kz", "kn", "kn2", "kd"}, DBs: []int{0}, TTL: true}
 	s.Inits = [][]Op{fixtureOps(""), singletonOps(), fixtureOps("100000"), append(singletonOps(), c("SET", "kd", "old", "PX", "5000"))}
-	s.Sweep = matrixAll([]string{"kn", "ks", "kl", "kh", "kz"})
+	s.Sweep = append(matrixAll([]string{"kn", "ks", "kl", "kh", "kz"}), aliasMatrix()...)
 	// chained: generic commands and removers, so that states "after the last element went away",
 	// "after a rename", "after a copy" are themselves starting points of the matrix
 	s.Alphabet = []Op{
